@@ -304,6 +304,15 @@ class Interp(object):
         """-> layout to use; removes path loss / filters first when the op
         forces a re-layout (public API only)."""
         want = op.get("layout")
+        swapped = want == "swap"
+        if want == "swap":
+            # the same users in another order: same K and antenna totals,
+            # another split
+            want = None if self.lay is None else dict(
+                self.lay, Nr=list(reversed(self.lay["Nr"])),
+                Nt=list(reversed(self.lay["Nt"])))
+            if want is not None and want != self.lay:
+                self.ctx.label("relayout_users_swapped")
         if self.lay is None:
             if want is None:
                 raise ValueError("first op needs a layout")
@@ -315,6 +324,10 @@ class Interp(object):
             return self.lay
         if self.PL is not None or self.W is not None:
             f = op.get("force")
+            if swapped and f != "reset_new":
+                # the drop is re-initialised for the re-ordered users and
+                # the same path loss values are set again
+                f = "reset_same"
             if f in ("reset_same", "reset_new") and self.W is None \
                     and self.PL is not None and len(want["Nr"]) == self.K \
                     and len(want.get("NtE") or []) == self.E:
@@ -405,10 +418,16 @@ class Interp(object):
         args = self._layout_args(lay, False, False)
         r, c = sum(lay["Nr"]), sum(lay["Nt"]) + sum(lay["NtE"])
         bad = np.ones((r + 1, c + 2), dtype=complex)
+        if op.get("bad") == "K":
+            # the matrix fits the antenna counts, but the number of users
+            # does not match the number of antenna counts given
+            bad = np.ones((r, c), dtype=complex)
+            args[2] = len(lay["Nr"]) + 1
         try:
             self.obj.init_from_channel_matrix(bad, *args)
         except ValueError:
-            self.ctx.label("rejected_init")
+            self.ctx.label("rejected_init" if op.get("bad") != "K"
+                           else "rejected_init_K")
             return
         raise Violation("bad_init_accepted", "init_from_channel_matrix took "
                         "a %r matrix for antenna counts %r" %
@@ -420,6 +439,21 @@ class Interp(object):
         making that memory read-only; so either the write is refused, or it
         succeeds and every view still agrees with the object's global
         matrix (which becomes the model's raw channel)."""
+        if op.get("target") == "pl":
+            # ... or into the path-loss array it handed to set_pathloss: the
+            # path loss of the object stays what was set
+            arr = getattr(self, "passed_pl", None)
+            if arr is None or self.PL is None:
+                self.ctx.label("poke_skipped(no caller array)")
+                return
+            i = int(op["i"]) % arr.shape[0]
+            j = int(op["j"]) % arr.shape[1]
+            try:
+                arr[i, j] = arr[i, j] * 0.5
+                self.ctx.label("poke_pathloss_succeeded")
+            except ValueError:
+                self.ctx.label("poke_pathloss_refused(read-only)")
+            return
         arr = getattr(self, "passed", None)
         if arr is None or arr.size == 0:
             self.ctx.label("poke_skipped(no caller array)")
@@ -461,9 +495,19 @@ class Interp(object):
                 new = np.array(self.PL, dtype=float, copy=True)
             elif kind == "ones":
                 new = np.ones((K, K + E))
+            elif kind == "near" and self.PL is not None:
+                # almost the path loss that is set (a user moved by a metre)
+                rs = np.random.RandomState(int(op["seed"]))
+                new = np.array(self.PL, dtype=float) * (
+                    1.0 + 1e-6 * rs.uniform(-1.0, 1.0, size=(K, K + E)))
+                self.ctx.label("pathloss_nearby_values")
             else:
                 rs = np.random.RandomState(int(op["seed"]))
                 new = 10.0 ** rs.uniform(-2.0, 1.0, size=(K, K + E))
+                if kind == "tiny":
+                    # linear path loss of real links: 1e-14 .. 1e-7
+                    new = 10.0 ** rs.uniform(-14.0, -7.0, size=(K, K + E))
+                    self.ctx.label("pathloss_tiny_values")
                 if kind == "intmatrix":
                     # whole-number path loss between the users handed over as
                     # an INTEGER array (a literal np.array([[1, 4], [9, 16]]));
@@ -474,11 +518,14 @@ class Interp(object):
             users = new[:, :K].astype(np.int64) if user_int \
                 else new[:, :K].copy()
             if self.ext:
+                self.passed_pl = users if users.dtype.kind == "f" else None
                 self._lib(self.tags(op="pathloss"), self.obj.set_pathloss,
                           users, new[:, K:].copy())
             else:
+                arg = users if user_int else new.copy()
+                self.passed_pl = arg if arg.dtype.kind == "f" else None
                 self._lib(self.tags(op="pathloss"), self.obj.set_pathloss,
-                          users if user_int else new.copy())
+                          arg)
         self.states.append((self.raw, self.PL))
         self.PL = new
         self.events.append(("pl", kind))
@@ -615,8 +662,15 @@ class Interp(object):
             out = self._lib(tags, self.obj.corrupt_concatenated_data,
                             x.copy())
         else:
+            if op.get("real_first") and self.K >= 2:
+                # the first user sends real symbols (BPSK), the others
+                # complex ones: blocks of different dtypes
+                x[self._colslice(0), :] = x[self._colslice(0), :].real
+                self.ctx.label("corrupt:first_block_real_dtype")
             blocks = [x[self._colslice(i), :].copy()
                       for i in range(len(cols))]
+            if op.get("real_first") and self.K >= 2:
+                blocks[0] = np.ascontiguousarray(blocks[0].real)
             data = _obj_array(blocks[:self.K])
             if self.ext:
                 out = self._lib(tags, self.obj.corrupt_data, data,
@@ -842,7 +896,7 @@ def _sized_list(elem, sizes):
 
 def _ops_st(tier, cls):
     views = EXT_VIEWS if cls == "extint" else PLAIN_VIEWS
-    lay = st.one_of(st.none(), st.none(), _layout_st(tier))
+    lay = st.one_of(st.none(), st.none(), _layout_st(tier), st.just("swap"))
     force = st.sampled_from([False, True, "reset_same", "reset_new"])
     randomize = fixed(op=st.just("randomize"), layout=lay,
                       force=force, ints=st.booleans(), seed=seeds)
@@ -851,6 +905,7 @@ def _ops_st(tier, cls):
                    kind=st.sampled_from(["complex", "complex", "int"]))
     pathloss = fixed(op=st.just("pathloss"),
                      kind=st.sampled_from(["matrix", "matrix", "matrix",
+                                           "tiny", "tiny", "near",
                                            "matrix", "intmatrix", "ones",
                                            "none"]),
                      seed=seeds, noarg=st.booleans())
@@ -866,10 +921,13 @@ def _ops_st(tier, cls):
                  k=st.integers(0, 11), l=st.integers(0, 11))
     corrupt = fixed(op=st.just("corrupt"),
                     mode=st.sampled_from(["data", "concat"]),
-                    nsymb=st.integers(1, 4), seed=seeds)
+                    nsymb=st.integers(1, 4), seed=seeds,
+                    real_first=st.sampled_from([False, False, True]))
     poke = st.one_of(
-        fixed(op=st.just("poke"), i=st.integers(0, 40), j=st.integers(0, 40)),
-        fixed(op=st.just("rejected_init"), layout=_layout_st(tier)))
+        fixed(op=st.just("poke"), i=st.integers(0, 40), j=st.integers(0, 40),
+              target=st.sampled_from(["matrix", "pl"])),
+        fixed(op=st.just("rejected_init"), layout=_layout_st(tier),
+              bad=st.sampled_from(["shape", "K"])))
     mutate = st.one_of(pathloss, pathloss, pathloss, randomize, init_m,
                        noise, filt, poke)
     observe = st.one_of(read, read, read, corrupt)
@@ -901,7 +959,7 @@ def _hist_strategy(tier):
         return fixed(
             part=st.just("hist"), cls=st.just(cls), chan_seed=seeds,
             noise_seed=seeds,
-            avoid_known=st.sampled_from([True, True, False]),
+            avoid_known=st.sampled_from([True, False, False, False]),
             sweep=st.sampled_from(["none", "none", "end", "end", "every"]),
             ops=st.tuples(first, st.one_of(free, segs)).map(
                 lambda t: [t[0]] + t[1]))
@@ -924,7 +982,7 @@ def _machine_cases(tier):
             part="machine", cls=["plain", "extint"][i % 2],
             mseed=int(s % (2 ** 31 - 1)), chan_seed=int((s >> 8) % 10 ** 6),
             noise_seed=int((s >> 16) % 10 ** 6),
-            avoid_known=(i % 3 != 2), sweep=["none", "end", "every"][
+            avoid_known=(i % 4 == 0), sweep=["none", "end", "every"][
                 (i // 2) % 3],
             examples=5 if tier == "quick" else 8,
             steps=16 if tier == "quick" else 30,
